@@ -70,6 +70,11 @@ CHECKS = {
         technique="TLA+ design specs Workers (all completion orders x all admissible unstable-sort results) and FnMatch (all map orders) model-checked by TLC; functional-dependency contract Determinism validated by TLC over digests of repeated `sfw check|diff|scan` process runs under GOMAXPROCS 1/2/16",
         text="The design models show exactly when the output is schedule-/order-independent (total comparator, fixed iteration order) and fail otherwise; the real CLI is run 6 (thorough 15) times per input and command in separate processes with GOMAXPROCS 1, 2, 16 on trees with several packages, several files per package, identical short names and many tied candidates; TLC checks that the masked output digest is a function of (command, input).",
         note=TRUST + "; the contract is a thin functional-dependency invariant: detection power comes from the drivers' repetition and the tie-rich inputs the models call for"),
+    "C01": dict(
+        level="model_checking", ref="3/C10",
+        technique="TLA+ design spec Pool (sync.Pool of canonicalizers: Acquire/Configure/Canonicalize/Release over the real field list, concurrent users) model-checked by TLC and bound to the code by an in-package reflection test; functional-dependency contract Determinism validated by TLC over digests of (name, fingerprint, canonical IR) from repeated, interleaved, concurrent, multi-process, multi-directory fingerprint runs",
+        text="TLC checks NoResidue for every interleaving of two users over two pooled objects (and that forgetting one field in the reset breaks it); the real FingerprintSourceAdvanced is run on generated multi-loop / select / switch / closure sources under three policies in seeded interleaved orders, from 12-32 goroutines, in 7 processes with GOMAXPROCS 1/2/16 and from a copy of the module in another directory; TLC checks that the digest is a function of (policy, source).",
+        note=TRUST + "; thin contract: detection power comes from the drivers' exploration steered by the pool model"),
 }
 
 NOT_YET = {}
